@@ -42,6 +42,13 @@ pub fn lt_iter_consumers(a: &[u8], n: usize) -> Vec<u64> {
     a.iter().for_each(|x| acc += *x as u64 * 3);
     out.push(acc);
     out.push(a.iter().len() as u64);
+    // by_ref: consumption through the borrowed iterator is visible afterwards (all() stops after the first false element)
+    let mut ch = a.chunks_exact(2);
+    let first_ok = ch.by_ref().all(|c| c[0] <= c[1]);
+    out.push(first_ok as u64 * 100 + ch.count() as u64);
+    let mut it = a.iter();
+    let firstbig = it.by_ref().position(|c| *c as usize > n);
+    out.push(firstbig.map(|p| p as u64 + 1).unwrap_or(0) * 100 + it.count() as u64);
     out
 }
 
